@@ -121,7 +121,7 @@ func (g *gen) redactableLit() string {
 	return sb.String()
 }
 
-var simpleKinds = []string{"int", "int", "str", "str", "str", "bytes", "bool", "f64", "i8", "u8", "u64", "rune", "nil", "cplx", "f32", "uint", "i64"}
+var simpleKinds = []string{"int", "int", "str", "str", "str", "bytes", "bool", "f64", "i8", "u8", "u64", "rune", "nil", "cplx", "f32", "uint", "i64", "i16", "u16", "u32", "c64", "barr"}
 var safeKinds = []string{"sstr", "sint", "suint", "sfloat", "srune", "sbyte", "sbytes", "regsafeint"}
 var scriptedList = []string{"stringer", "error", "wraperr", "formatter", "gostringer", "safefmt", "safemsg", "errfmt", "errsafefmt", "errstr", "safeval", "regsafe",
 	"liststringer", "maperror", "intstringer", "strformatter"}
@@ -138,6 +138,8 @@ func (g *gen) simple() Val {
 		v.I = int64([]int{65, 0x203a, 0x2039, 0xe9, -1, 0xd800, 0x110000, 0x65e5, 10}[g.r.Intn(9)])
 	case "u8", "i8":
 		v.I = int64(g.r.Intn(120))
+	case "barr":
+		v.S = Str(g.payload())
 	case "nil":
 	default:
 		v.I = int64(g.r.Intn(2000) - 500)
@@ -394,7 +396,7 @@ func (g *gen) safeScript(depth, n int, allowPanic bool) []Step {
 	return ss
 }
 
-var verbsCommon = []string{"v", "v", "v", "s", "s", "d", "q", "x", "+v", "#v", "T", "X", "t", "c", "U", "e", "o", "b", "10v", "-8s", ".2s", "08d", "+d", " x", "#x", ".3v", "6.2f", "g"}
+var verbsCommon = []string{"v", "v", "v", "s", "s", "d", "q", "x", "+v", "#v", "T", "X", "t", "c", "U", "e", "o", "b", "10v", "-8s", ".2s", "08d", "+d", " x", "#x", ".3v", "6.2f", "g", "F", "G", "O", "+q", "#q", "#U", "-12s", "% X"}
 
 // format builds a format string for the given operands.
 func (g *gen) format(args []Val) string {
